@@ -157,17 +157,14 @@ def run(ctx):
         for name, sel, fn in rng.sample(ts, min(len(ts), 4)):
             work = copy.deepcopy(net)
             case = {"transformation": name, "targets": sel, "net": pp.to_json(net)}
-            known = "C23-replace-line-by-impedance-positional" if (name in ("replace_line_by_impedance", "line_impedance_round_trip")
-                                                                   and not ident) else None
+            known = None
             try:
                 mapping = fn(work)
                 pp.runpp(work, numba=False)
             except Exception as e:
                 ctx.count("raised:%s:%s" % (name, type(e).__name__))
                 ctx.case({"t": name, "net": case["net"][:2000]}, nontrivial=False)
-                if known and isinstance(e, IndexError):
-                    ctx.violation(known, "%s raises IndexError on line index %s" % (name, [int(i) for i in net.line.index]), case)
-                elif name.startswith("drop_") or name.startswith("create_cont"):
+                if name.startswith("drop_") or name.startswith("create_cont"):
                     ctx.violation("spec", "%s: %s: %s" % (name, type(e).__name__, e), case)
                 else:
                     ctx.violation("spec", "%s raises %s: %s" % (name, type(e).__name__, str(e)[:200]), case)
